@@ -1285,6 +1285,16 @@ impl<'a> Body<'a> {
             return None;
         }
         let Expr::MethodCall(am) = &*mc.receiver else { return None };
+        if am.method == "entry" && am.args.len() == 1 {
+            // R20b: m.entry(k).or_insert_with(|| I);  (value unused)
+            let Expr::Closure(c2) = &mc.args[0] else { return None };
+            if !c2.inputs.is_empty() {
+                return None;
+            }
+            let (map, key, init) = (&am.receiver, &am.args[0], &c2.body);
+            self.note("R20", "entry(k).or_insert_with(..) as a statement -> if !contains_key { insert }".into());
+            return Some(parse_stmts(quote!(if !#map.contains_key(&#key) { #map.insert(#key, #init); })));
+        }
         if am.method != "and_modify" || am.args.len() != 1 {
             return None;
         }
